@@ -64,6 +64,8 @@ def close(a, b, rel=1e-9):
     return abs(a - b) <= rel * max(1.0, abs(a), abs(b))
 
 
+GSC_KEY = "C16:gsc:identical-rows-split-by-zero-distance-ties"
+
 class C16(Prop):
     id = "C16"
     lean_modules = ["EaselModel.Props.C16"]
@@ -73,7 +75,10 @@ class C16(Prop):
         "pairId_spec", "pairId_unaligned", "pairId_symm", "pairId_self", "pairId_empty", "pairId_range",
         "singleLinkage_components", "singleLinkage_assignment", "singleLinkage_numbering", "msaSingleLinkage_components",
         "idFilter_independent_maximal", "idFilterText_spec",
-        "pb_sum", "pb_nonneg", "pb_formula", "pb_identical_rows")]
+        "pb_sum", "pb_nonneg", "pb_formula", "pb_identical_rows",
+        "singleLinkage_sizes", "idFilterDigital_spec", "quicksort_permutation", "blosum_formula", "blosum_sum_nonneg",
+        "pb_counts_digital", "pb_counts_text", "pb_relisting_digital", "pb_relisting_text", "gsc_sum_nonneg",
+        "gsc_identical_rows_fails_at")]
     claimed = True
     technique = ("Lean 4 proof over the exact (Q) instance of a numeric-class-polymorphic executable model of esl_distance/esl_cluster/"
                  "esl_msacluster/esl_quicksort/esl_msaweight/esl_tree(UPGMA) + bit-exact differential correspondence of the Float instance "
@@ -277,6 +282,9 @@ class C16(Prop):
         c.append(mk("allgap", "text", ["----------"] * 3, std))
         c.append(mk("one-col", "text", ["A", "a", "C", "-"], std))
         c.append(mk("frag-subseq", "text", ["ACDEFGHI", "ACDE----", "ACDEFGHI", "----FGHI", "----FGHI"], std))
+        k = mk("gsc-known-finding", "text", ["--DE----", "ACDEFGHI", "---EF---", "---EFGH-", "ACDEFGHI"], ["gsc"])
+        k["known_key"] = GSC_KEY
+        c.append(k)
         am = lambda s: ["ACDEFGHIKLMNPQRSTVWY-BJZOUX*~".index(ch) for ch in s]
         dstd = std + ["pbadv irf=0 ft=%s sf=%s" % (f32bits(0.5), f32bits(0.5)), "pbadv irf=1 ft=%s sf=%s" % (f32bits(0.5), f32bits(0.5)),
                       "idfilteradv maxid=%s pref=1" % dbits(0.62), "idfilteradv maxid=%s pref=2 seed=42" % dbits(0.62),
@@ -292,7 +300,7 @@ class C16(Prop):
         rng = ctx.rng
         out = []
         quick = ctx.tier == "quick"
-        nal = 110 if quick else 900
+        nal = 700 if quick else 5000
         for c in range(nal):
             r = rng.random()
             if r < 0.25:   nseq, alen = rng.randrange(1, 7), rng.randrange(1, 13)
@@ -304,11 +312,11 @@ class C16(Prop):
                 out.append(self.one_case(rng, "big%d" % c, rng.randrange(60, 301), rng.randrange(100, 401)))
             out.append(self.one_case(rng, "max", 300, 400))
         # GSC equivariance needs tie-free distances: few rows, many columns, noisy copies
-        for c in range(25 if quick else 200):
+        for c in range(120 if quick else 800):
             out.append(self.one_case(rng, "tiefree%d" % c, rng.randrange(2, 7), rng.randrange(50, 101), mode=rng.choice(["amino", "text"])))
-        for c in range(60 if quick else 600):
+        for c in range(300 if quick else 2000):
             out.append(self.graph_case(rng, "graph%d" % c))
-        for c in range(30 if quick else 300):
+        for c in range(150 if quick else 1000):
             out.append(self.pairstr_case(rng, "pairstr%d" % c))
         return out
 
@@ -428,7 +436,13 @@ class C16(Prop):
                     k = tuple(r_)
                     if k in seen:
                         a, b = wt[seen[k]], wt[i]
-                        if (w[0] != "gsc" and a != b) or (w[0] == "gsc" and not close(a, b) and not self._gsc_zero_ties(aln)):
+                        if w[0] == "gsc" and not close(a, b) and self._gsc_zero_ties(aln):
+                            # known finding: reported (with its key) on the corpus witness only, counted elsewhere
+                            cnt("gsc-identical-rows-differ-under-zero-ties")
+                            if case.get("known_key") == GSC_KEY:
+                                return Failure("monitor", "gsc: identical rows %d and %d have weights %r and %r" % (seen[k], i, a, b), key=GSC_KEY)
+                            continue
+                        if (w[0] != "gsc" and a != b) or (w[0] == "gsc" and not close(a, b)):
                             return Failure("monitor", "%s: identical rows %d and %d have weights %r and %r" % (w[0], seen[k], i, a, b))
                     else: seen[k] = i
                 if w[0] == "blosum":
